@@ -432,7 +432,7 @@ class Engine:
                     finally:
                         st.heap_stack.pop()
                     if a.func.id == 'elems' and isinstance(obj, VList):
-                        for nm in ('LEN', 'EL', 'ER', 'KIND'):
+                        for nm in ('LEN', 'EL', 'ER', 'EX', 'KIND'):
                             add(nm, obj.t)
                         continue
                     if a.func.id == 'table' and isinstance(obj, VTable):
@@ -604,7 +604,7 @@ class Engine:
         for name in list(st.H):
             arr = st.H[name]
             new = self.fresh_arr(st, 'hv!' + name, arr.sort())
-            if keep_trace and (name.startswith('k:ev.') or name in ('LEN', 'ER', 'EL', 'KIND')):
+            if keep_trace and (name.startswith('k:ev.') or name in ('LEN', 'ER', 'EL', 'EX', 'KIND')):
                 # events and snapshot lists referenced from the trace are immutable ghost objects
                 if name.startswith('k:ev.'):
                     new = st.merged(name, arr, new, nr)
@@ -727,7 +727,7 @@ class Engine:
                     new = self.fresh_arr(st, 'hv!' + name, arr.sort())
                     st.H[name] = st.merged(name, arr, new, nr)
             # snapshot lists created by the callee
-            for name in ('LEN', 'EL', 'ER', 'KIND'):
+            for name in ('LEN', 'EL', 'ER', 'EX', 'KIND'):
                 if name in st.H:
                     arr = st.H[name]
                     new = self.fresh_arr(st, 'hv!' + name, arr.sort())
@@ -738,7 +738,7 @@ class Engine:
                 continue
             if name not in st.H:
                 continue
-            if '@events' in allowed and (name.startswith('k:ev.') or name in ('LEN', 'EL', 'ER', 'KIND')):
+            if '@events' in allowed and (name.startswith('k:ev.') or name in ('LEN', 'EL', 'ER', 'EX', 'KIND')):
                 continue
             arr = st.H[name]
             if isinstance(tgt, str) and tgt == '*':
@@ -1082,7 +1082,7 @@ class Engine:
             return z3.IntSort()
         if name == 'EL':
             return z3.ArraySort(z3.IntSort(), self.ar.sort)
-        if name == 'ER':
+        if name in ('ER', 'EX'):
             return z3.ArraySort(z3.IntSort(), z3.IntSort())
         if name == 'DOM':
             return DOM_SORT
@@ -1240,6 +1240,8 @@ class Engine:
             env[names[0]] = it.from_idx(kv)
             if len(names) > 1:
                 env[names[1]] = mk_value(st, tb.val, z3.Select(table_val(st, tb), kv))
+                if st.cur_heap() is st.H:
+                    st.wf_array('VAL', 'ref2')
             st.frames.append(Frame(st.frames[-1].func, env, st.frames[-1].cls))
             st.bound_vars.append(kv)
             try:
@@ -1382,7 +1384,7 @@ class LoopScan:
             self.key_arrays(k, self.later_ref(t.value))
             return
         ref = self.later_ref(t.value)
-        for nm in ('EL', 'ER', 'DOM', 'VAL'):
+        for nm in ('EL', 'ER', 'EX', 'DOM', 'VAL'):
             self.arrays.append((nm, ref))
 
     def key_arrays(self, k, ref):
@@ -1428,14 +1430,14 @@ class LoopScan:
                     if isinstance(k, ast.Constant) and isinstance(k.value, str):
                         self.key_arrays(k.value, None)
             elif isinstance(node, (ast.List, ast.ListComp)):
-                for nm in ('LEN', 'EL', 'ER', 'KIND'):
+                for nm in ('LEN', 'EL', 'ER', 'EX', 'KIND'):
                     self.arrays.append((nm, None))
             elif isinstance(node, ast.Subscript) and isinstance(node.slice, ast.Slice) and isinstance(node.ctx, ast.Load):
-                for nm in ('LEN', 'EL', 'ER', 'KIND'):
+                for nm in ('LEN', 'EL', 'ER', 'EX', 'KIND'):
                     self.arrays.append((nm, None))
             elif isinstance(node, ast.BinOp) and isinstance(node.op, (ast.Mult, ast.Add)):
                 # may build a list
-                for nm in ('LEN', 'EL', 'ER', 'KIND'):
+                for nm in ('LEN', 'EL', 'ER', 'EX', 'KIND'):
                     self.arrays.append((nm, None))
             elif isinstance(node, ast.Call):
                 self.call(node)
@@ -1447,14 +1449,14 @@ class LoopScan:
                 return
             if f.attr in LIST_MUTATORS:
                 ref = self.later_ref(f.value)
-                for nm in ('LEN', 'EL', 'ER'):
+                for nm in ('LEN', 'EL', 'ER', 'EX'):
                     self.arrays.append((nm, ref))
                 return
             if f.attr in QUEUE_MUTATORS:
-                for nm in ('LEN', 'EL', 'ER'):
+                for nm in ('LEN', 'EL', 'ER', 'EX'):
                     self.arrays.append((nm, '*'))
             if f.attr in ('copy', 'to_bytes', 'tolist'):
-                for nm in ('LEN', 'EL', 'ER', 'KIND'):
+                for nm in ('LEN', 'EL', 'ER', 'EX', 'KIND'):
                     self.arrays.append((nm, None))
             # method of a repository class?
             attr = self.mangle(f.attr)
@@ -1470,7 +1472,7 @@ class LoopScan:
             if f.id in ('print', 'len', 'min', 'max', 'int', 'range', 'enumerate', 'callable', 'isinstance', 'hex', 'str', 'bool', 'abs'):
                 return
             if f.id in ('list', 'bytes', 'bytearray'):
-                for nm in ('LEN', 'EL', 'ER', 'KIND'):
+                for nm in ('LEN', 'EL', 'ER', 'EX', 'KIND'):
                     self.arrays.append((nm, None))
                 return
             ci = self.eng.repo.find_class(f.id)
@@ -1487,7 +1489,7 @@ class LoopScan:
         tr = z3.IntVal(TRACE_REF)
         for nm in ('LEN', 'ER'):
             self.arrays.append((nm, tr))
-        for nm in ('LEN', 'EL', 'ER', 'KIND'):
+        for nm in ('LEN', 'EL', 'ER', 'EX', 'KIND'):
             self.arrays.append((nm, None))
         # event records are written at fresh refs only
         slots = ['a%d' % k for k in range(10)]
